@@ -19,6 +19,10 @@ void one_case(Ctx &c) {
   w.add_domain(0x2101, 0, c.t.biased(1, 40, MARKS, 4), true, false, (uint32_t)iv.next());
   w.add_string(0x2102, 0, c.t.biased(1, 300, MARKS, 4), (uint32_t)iv.next());
   w.add_string(0x2103, 0, 1 + c.t.below(5), (uint32_t)iv.next());
+  // mode wide-dictionary: readable objects in the network-variable area and at the top of the index space, 8000h and more indices away from the rest
+  int hi0 = -1;
+  if (c.param == 1) { hi0 = (int)w.objs.size(); w.add_domain(0xA100, 0, c.t.biased(1, 1200, MARKS, 8), true, true, (uint32_t)iv.next()); w.add_string(0xA101, 0, c.t.biased(1, 300, MARKS, 4), (uint32_t)iv.next());
+    w.add_int(0xA200, 1, 4, false, true, true, false, (uint32_t)iv.next()); w.add_int(0xFFFE, 0, 1, true, false, true, true, (uint32_t)iv.next()); w.add_domain(0x9000, 0, 5 + c.t.below(30), true, false, (uint32_t)iv.next()); }
   w.finish();
   SdoClient cl(s, w.req[0], w.rsp[0]);
 #if CO_SSDO_N > 1
@@ -39,7 +43,8 @@ void one_case(Ctx &c) {
   bool nt = false;
   for (int u = 0; u < nuploads; u++) {
     static const uint16_t OW[16] = {2, 2, 2, 2, 2, 2, 2, 2, 2, 2, 2, 2, 40, 10, 14, 8};
-    TObj &o = w.objs[c.t.weighted(OW)];
+    TObj &o = w.objs[hi0 >= 0 && c.t.coin() ? (uint32_t)hi0 + c.t.below(5) : c.t.weighted(OW)];
+    if (o.idx >= 0x9000) c.cls("object-at-index-9000h-or-above");
     std::vector<uint8_t> want = w.content(o);
 #if CO_SSDO_N > 1
     cur = &o;
@@ -77,11 +82,12 @@ void one_case(Ctx &c) {
 
 Registrar reg(Prop{
     "C03",
-    "Cases: node id 1..127; dictionary with the 12 integer kinds, domains of 1..2000 (4000 thorough) and 1..40 bytes, strings of 1..300 and 1..5 characters (sizes boundary-biased around 4,7,8,14,889,890,896,1778), arbitrary contents; "
+    "Cases: node id 1..127; dictionary with the 12 integer kinds, domains of 1..2000 (4000 thorough) and 1..40 bytes, strings of 1..300 and 1..5 characters (sizes boundary-biased around 4,7,8,14,889,890,896,1778), arbitrary contents; mode wide-dictionary adds readable objects at 9000h, A100h, A101h, A200h and FFFEh (every readable object: also those 8000h and more indices away from the communication objects), half of the uploads address them; "
     "1..3 consecutive uploads by a reference conforming client (build n2: a second client uploads through the second server between a sub-block and its acknowledge): expedited/segmented (server's choice) or block with initial block size 1..127 and, per sub-block, an acknowledged prefix k in 0..n (weights favour 0, 1, n-1, n/2, uniform) and a new block size 1..127, up to 6 (12) partial acknowledges per transfer. "
     "Oracle: reassembled bytes and length == object content, announced size == object size, toggles, sequence numbers 1..n, segment count min(blksize, remaining), last flag exactly on the final segment, unused-byte counts, no answer to A1h, storage snapshot unchanged. "
     "Non-trivial: >= 2 segments, or a partial acknowledge, or a block-size change. Distinct = distinct decoded choice sequence.",
-    {Mode{"random", one_case, false, 1500000, 30000000, 0, 0, 200, 400}},
+    {Mode{"random", one_case, false, 1500000, 30000000, 0, 0, 200, 400},
+     Mode{"wide-dictionary", one_case, false, 200000, 4000000, 1, 1, 200, 400}},
     {"pst (protocol switch threshold) and CRC are not requested by the client", "build n2: the two servers never transfer the same domain or string object at the same time (its read position is part of the object)", "bytes the standard calls unused are not compared"}});
 
 }  // namespace
